@@ -17,6 +17,8 @@ structure St where
   local_ : String := ""
   naddrs : Nat := 0
   opt : Bool := false
+  /-- peers that cannot be dialled: no message ever reaches them -/
+  undialable : List Nat := []
   active : Bool := false
 
 def honest (known : List Nat) (self requester K : Nat) : List Nat :=
@@ -54,13 +56,17 @@ def step (st : St) (line : String) : St × String :=
       match t.splitOn ":" with
       | id :: _ :: kn :: _ => some (id.toNat!, if kn == "" then [] else (kn.splitOn ".").map String.toNat!)
       | _ => none
+    let undial := ((C09.kvOf ws "peers").splitOn "|").filterMap fun t =>
+      match t.splitOn ":" with
+      | id :: beh :: _ => if beh.startsWith "d" then some id.toNat! else none
+      | _ => none
     let hdr := s!"lookup n={n} key=0 K={C09.kvOf ws "K"} a={C09.kvOf ws "a"} b={C09.kvOf ws "b"} api=public rt={C09.kvOf ws "rt"} peers={C09.kvOf ws "peers"}"
     let (lk, _) := C01.step {} hdr
     let (vs, _) := C04.step {} line
     ({ kind := kind, lk := lk, vs := vs, known := known, n := n, K := (C09.kvOf ws "K").toNat!,
        value := C09.kvOf ws "value", local_ := C09.kvOf ws "local",
        naddrs := (let a := C09.kvOf ws "addrs"; let filt := C09.kvOf ws "filt" == "1"
-                  if a == "-" then 0 else (a.toList.filter fun c => !(filt && c == 'r')).length), opt := C09.kvOf ws "opt" == "1",
+                  if a == "-" then 0 else (a.toList.filter fun c => !(filt && c == 'r')).length), opt := C09.kvOf ws "opt" == "1", undialable := undial,
        active := kind == "putvalue" || kind == "provide" || kind == "searchvalue" || kind == "getvalue" }, "-")
   | ["rel", tok] => (feed st tok, "-")
   | ["cancel"] => ({ st with lk := (C01.step st.lk "cancel").1, vs := (C04.step st.vs "cancel").1 }, "-")
@@ -118,7 +124,14 @@ def verdict (st : St) (line : String) : St × String :=
     if parsed.any (fun x => x.1 != 'A' || x.2.2 != s!"{st'.n}/{st'.naddrs}") then
       (st', s!"FAIL an ADD_PROVIDER does not name exactly the local peer with its {st'.naddrs} filter-passing addresses")
     else if st'.naddrs == 0 && !parsed.isEmpty then (st', "FAIL announced without any address")
-    else (st', "ok")
+    else
+      -- every peer of the lookup's result (the K nearest learned peers that did not fail, from the published lookup events)
+      -- is sent an ADD_PROVIDER — classic and optimistic provide alike — unless the caller gave up or there is no address
+      let lookupRes := (splitList (C09.kvOf iw "lookupres")).map String.toNat!
+      let missing := lookupRes.filter fun r => !ranks.contains r && !st'.undialable.contains r
+      if C09.kvOf iw "err" == "nil" && !st'.lk.cancelled && st'.naddrs > 0 && !missing.isEmpty then
+        (st', s!"FAIL peer {missing.headD 0} is among the peers the lookup returned but was sent no ADD_PROVIDER")
+      else (st', "ok")
   else if st'.kind == "putvalue" then
     if parsed.any (fun x => x.1 != 'V' || x.2.2 != s!"{(String.ofList (st'.value.toList.drop 1))}:ok") then
       (st', "FAIL a PUT_VALUE does not carry the record that was put")
